@@ -60,7 +60,7 @@ func TestWindowedRandom(t *testing.T) {
 			out := []J{}
 			for _, s := range del.Samples[before:] {
 				// ScriptedLimit reports RTTs in ticks of 1 ms: here they are plain nanoseconds
-				ns := s["rtt"].(int64)*int64(tickDur)
+				ns := s["rtt"].(int64) * int64(tickDur)
 				if rem, ok := s["rtt_ns_remainder"]; ok {
 					ns += rem.(int64)
 				}
@@ -76,7 +76,7 @@ func TestWindowedRandom(t *testing.T) {
 type debugLogger struct{}
 
 func (debugLogger) Debugf(string, ...interface{}) {}
-func (debugLogger) IsDebugEnabled() bool            { return true }
+func (debugLogger) IsDebugEnabled() bool          { return true }
 
 // tracedForward records one sequence on a TracedLimit (with a silent or a debug-enabled logger) over a recording
 // delegate: every sample reaches the delegate at once and unchanged, and the wrapper reports the delegate's estimate.
